@@ -441,6 +441,19 @@ func (x *Exec) store(st *State, a *Addr, nv *Term) {
 				si := x.w.structOf(a.cellT)
 				for i := 0; i < u.NumFields(); i++ {
 					n, s := x.fieldComp(a.cellT, i)
+					if at, isArr := u.Field(i).Type().Underlying().(*types.Array); isArr {
+						// embedded array: the row stays where it is, its contents are overwritten.
+						// Only assignment of a zero array is modelled (struct values carry no array contents).
+						row := ts.Select(x.comp(st, n, s), a.ref)
+						if _, isStruct := at.Elem().Underlying().(*types.Struct); isStruct {
+							x.note("whole-struct assignment to %s: elements of the embedded array of structs are not reset in the model", shortTypeString(a.cellT))
+							continue
+						}
+						en, es := x.elemComp(at.Elem())
+						_, rowSort, _ := es.arrParts()
+						st.heap[en] = ts.Store(x.comp(st, en, es), row, ts.App("(as const "+string(rowSort)+")", rowSort, x.w.zeroOf(at.Elem())))
+						continue
+					}
 					st.heap[n] = ts.Store(x.comp(st, n, s), a.ref, x.w.field(si, nv, i))
 				}
 				return
